@@ -89,11 +89,12 @@ inductive Outcome where
   | mismatch       -- stored value is not the one this request may use (client_id / state)
   | postCheck      -- a later local check failed (PKCE verifier, request_uri_method)
   | used           -- nonce / jti seen before
+  | storeErr       -- the session store failed (mark consumers report it; burn consumers report `notFound`)
   deriving DecidableEq, Repr, Inhabited
 
 def Outcome.name : Outcome → String
   | .ok => "ok" | .missingParam => "missing-param" | .notFound => "not-found" | .mismatch => "mismatch"
-  | .postCheck => "post-check" | .used => "used"
+  | .postCheck => "post-check" | .used => "used" | .storeErr => "store-error"
 
 /-- the outcomes in which GetAndDelete handed the stored value to the request -/
 def Outcome.took : Outcome → Bool
@@ -130,11 +131,17 @@ structure BurnReq where
   pre : Bool := true
   /-- the local checks made after the value check pass (PKCE; request_uri_method) -/
   post : Bool := true
+  /-- injected store faults: the underlying Get / every underlying Delete of this request returns an error -/
+  failGet : Bool := false
+  failDel : Bool := false
   deriving DecidableEq, Repr, Inhabited
 
 structure MarkReq where
   kind : MarkKind
   id : String
+  /-- injected store faults: the underlying Get / Set of this request returns an error -/
+  failGet : Bool := false
+  failSet : Bool := false
   deriving DecidableEq, Repr, Inhabited
 
 inductive BurnPc where
@@ -216,6 +223,8 @@ def stepBurn (cfg : Cfg) (st : Store) (now : Nat) (lock : Option Nat) (i : Nat) 
      | none => (.atCall, st, some i)
      | some _ => (.wantLock, st, lock))
   | .atCall =>
+    -- a failing store call makes GetAndDelete return that error: nothing is handed out, nothing is deleted
+    if r.failGet then (afterGad r none, st, unlock cfg.gadLocks lock) else
     (match cfg.gad with
      | .singleCall => (afterGad r (stGet cfg.expInclusive st now k), stErase st k, lock)
      | _ =>
@@ -223,10 +232,11 @@ def stepBurn (cfg : Cfg) (st : Store) (now : Nat) (lock : Option Nat) (i : Nat) 
        | some v => (.atDel v, st, lock)
        | none => (afterGad r none, st, unlock cfg.gadLocks lock))
   | .atDel v =>
+    if r.failDel then (afterGad r none, st, unlock cfg.gadLocks lock) else
     let missing := (stGet cfg.expInclusive st now k).isNone
     let err := cfg.gadRawDelete && cfg.strictDelete && missing
     (afterGad r (if err then none else some v), stErase st k, unlock cfg.gadLocks lock)
-  | .atBurn o => (.done o, stErase st k, lock)
+  | .atBurn o => (.done o, if r.failDel then st else stErase st k, lock)
   | .done o => (.done o, st, lock)
 
 /-- one scheduled step of a mark consumer -/
@@ -246,8 +256,10 @@ def stepMark (cfg : Cfg) (st : Store) (now : Nat) (lock : Option Nat) (i : Nat) 
      | none => (.atCall, st, some i)
      | some _ => (.wantLock, st, lock))
   | .atCall =>
+    if r.failGet then (.done .storeErr, st, unlock (cfg.markLocks r.kind) lock) else
     (match cfg.mark r.kind with
      | .putIfAbsent =>
+       if r.failSet then (.done .storeErr, st, lock) else
        (match stGet cfg.expInclusive st now k with
         | some _ => (.done .used, st, lock)
         | none => (.done .ok, stPut st k e, lock))
@@ -255,7 +267,9 @@ def stepMark (cfg : Cfg) (st : Store) (now : Nat) (lock : Option Nat) (i : Nat) 
        match stGet cfg.expInclusive st now k with
        | some _ => (.done .used, st, unlock (cfg.markLocks r.kind) lock)
        | none => (.atPut true, st, lock))
-  | .atPut fresh => (.done (if fresh then .ok else .used), stPut st k e, unlock (cfg.markLocks r.kind) lock)
+  | .atPut fresh =>
+    if r.failSet then (.done .storeErr, st, unlock (cfg.markLocks r.kind) lock) else
+    (.done (if fresh then .ok else .used), stPut st k e, unlock (cfg.markLocks r.kind) lock)
   | .done o => (.done o, st, lock)
 
 def stepThread (cfg : Cfg) (st : Store) (now : Nat) (lock : Option Nat) (i : Nat) (t : Thread) :
